@@ -518,12 +518,61 @@ def check_overlap(run, scs, fixed_mode):
 
 # ---------------------------------------------------------------- the real InformerMap
 
-def RW(o, g, lst="ok"):
-    return {"op": "watch", "o": o, "g": g, "list": lst}
+IDENT_READ = ("C12 dynamic cache read of a watched kind does not return the object the informer holds "
+              "(scope of the kind mis-derived)")
+# kinds of the harness: 0 Secret, 1 ConfigMap, 2 Widget v1, 3 Widget v1beta1 (same kind, other version),
+# 4 ClusterWidget (cluster-scoped); owners 0, 1 are namespaced, owner 2 is cluster-scoped;
+# sample namespaces: 0 none, 1 "ns-a"
+
+
+def RW(o, g, lst="ok", sns=1):
+    return {"op": "watch", "o": o, "g": g, "list": lst, "sns": sns}
+
+
+REAL_TAIL = [F(0), F(1), F(2)]   # every scenario ends with all owners freed: no stream may be left
+
+
+def scope_scenarios(r, tier):
+    """who watches a kind first, with what sample object: cluster-scoped kind / namespaced owner+sample and vice versa"""
+    c = [
+        [RW(0, 4, sns=1)],
+        [RW(2, 4, sns=0), RW(0, 4, sns=1)],
+        [RW(2, 1, sns=0)],
+        [RW(0, 1, sns=1), RW(2, 1, sns=0), F(0)],
+        [RW(0, 4, sns=1), F(0), RW(2, 4, sns=0)],
+        [RW(0, 4, "hang", sns=1), RW(0, 4, sns=1), RW(2, 2, sns=0)],
+    ]
+    for _ in range(0 if tier == "quick" else 40):
+        ops = []
+        for _ in range(r.randint(2, 5)):
+            if r.random() < 0.7:
+                ops.append(RW(r.randrange(3), r.choice([1, 2, 4, 4]), "hang" if r.random() < 0.2 else "ok", r.randrange(2)))
+            else:
+                ops.append(F(r.randrange(3)))
+        c.append(ops)
+    return [{"handlers": 2, "kinds": 5, "ops": ops + REAL_TAIL} for ops in c]
+
+
+def version_scenarios(r, tier):
+    """one kind watched in two API versions by different owners"""
+    c = [
+        [RW(0, 2), RW(1, 3), F(0), G(3), L(3)],
+        [RW(0, 3), RW(1, 2), F(1), G(2)],
+        [RW(0, 2), RW(1, 3), F(1), L(2), F(0), RW(1, 3)],
+        [RW(0, 2, "hang"), RW(1, 3), RW(0, 2), F(1)],
+    ]
+    for _ in range(0 if tier == "quick" else 30):
+        ops = []
+        for _ in range(r.randint(3, 6)):
+            if r.random() < 0.65:
+                ops.append(RW(r.randrange(3), r.choice([2, 3]), "hang" if r.random() < 0.2 else "ok", r.randrange(2)))
+            else:
+                ops.append(F(r.randrange(3)))
+        c.append(ops)
+    return [{"handlers": 2, "kinds": 5, "ops": ops + REAL_TAIL} for ops in c]
 
 
 def real_scenarios(r, tier):
-    tail = [F(0), F(1)]           # every scenario ends with all owners freed: no stream may be left
     c = [
         [RW(0, 0, "hang"), RW(0, 0), G(0), F(0), G(0)],
         [RW(0, 0), RW(1, 0, "hang"), F(0), L(0)],
@@ -537,7 +586,7 @@ def real_scenarios(r, tier):
     if tier == "thorough":
         c += [[x] for x in letters] + [[x, y] for x in letters for y in letters]
         c += [[RW(0, 0, "fail"), RW(0, 0)], [RW(0, 0), RW(1, 1, "fail"), RW(0, 1), F(1)], [RW(1, 0, "fail"), F(1), RW(0, 0, "hang"), RW(0, 0)]]
-    for _ in range(14 if tier == "quick" else 150):
+    for _ in range(10 if tier == "quick" else 150):
         ops = []
         for _ in range(r.randint(3, 5 if tier == "quick" else 7)):
             x = r.random()
@@ -548,7 +597,8 @@ def real_scenarios(r, tier):
             else:
                 ops.append(r.choice([G, L])(r.randrange(2)))
         c.append(ops)
-    return [{"handlers": 2, "kinds": 2, "ops": ops + tail} for ops in c]
+    return ([{"handlers": 2, "kinds": 2, "ops": ops + REAL_TAIL[:2]} for ops in c]
+            + scope_scenarios(r, tier) + version_scenarios(r, tier))
 
 
 def run_real(scs):
@@ -570,61 +620,109 @@ def real_model_op(op):
     return c_op(op)
 
 
+def c_key(k):
+    return cP(cN(k[0]), cN(k[1]))
+
+
+def real_reads_wellformed(obs):
+    for st in obs["steps"]:
+        for g in st["gets"]:
+            if g["class"] not in ("found", "notfound", "notstarted") or (g["class"] == "found" and min(g["got_ns"], g["got_n"]) < 0):
+                return False
+        for l in st["lists"]:
+            if l["class"] not in ("ok", "notstarted") or any(min(k) < 0 for k in l["keys"]):
+                return False
+    return True
+
+
 def real_term(sc, obs):
     steps = []
     for op, st in zip(sc["ops"], obs["steps"]):
         snap = cL([cP(cN(g), c_owners(x)) for g, x in enumerate(st["snap"])])
         streams = cL([cP(cN(g), cN(n)) for g, n in enumerate(st["streams"])])
         deliv = cL([cP(cN(g), cL([cN(h) for h in d])) for g, d in enumerate(st["delivered"])])
-        steps.append(cP(real_model_op(op), "RObs %s %s %s %s" % (ERRS[st["err"]], snap, streams, deliv)))
+        gets = []
+        for g in st["gets"]:
+            res = {"found": lambda: cO(cO(c_key((g["got_ns"], g["got_n"])))), "notfound": lambda: cO("None"),
+                   "notstarted": lambda: "None"}[g["class"]]()
+            gets.append(cP(cN(g["g"]), cN(g["ns"]), cN(g["name"]), res))
+        lists = []
+        for l in st["lists"]:
+            res = cO(cL([c_key(k) for k in l["keys"]])) if l["class"] == "ok" else "None"
+            lists.append(cP(cN(l["g"]), cN(l["ns"]), res))
+        steps.append(cP(real_model_op(op), "RObs %s %s %s %s %s %s" % (ERRS[st["err"]], snap, streams, deliv, cL(gets), cL(lists))))
     peaks = cL([cP(cN(g), cN(n)) for g, n in enumerate(obs["peak"])])
+    scope = cL([cP(cN(g), cB(b)) for g, b in enumerate(obs["scope"])])
+    store = cL([cP(cN(g), cL([c_key(k) for k in ks])) for g, ks in enumerate(obs["store"])])
     return "(%s : real_case)" % cP(cL([cN(h) for h in range(sc["handlers"])]), cL([cN(g) for g in range(sc["kinds"])]),
-                                   cL(steps), peaks)
+                                   scope, store, cL(steps), peaks)
 
 
-def check_real(run, scs, fixed_mode):
-    """The real Cache on the real InformerMap with a fake API server; judged inside Coq (C12Corr.judge_real)."""
+def check_real(run, scs, fixed_mode, pid="C12", only_reads_as=None):
+    """The real Cache on the real InformerMap with a fake API server; judged inside Coq (C12Corr.judge_real).
+    only_reads_as: report only failures of the read-correctness clause, under that identity."""
     outs = run_real(scs)
     terms, idx = [], []
     for i, (sc, o) in enumerate(zip(scs, outs)):
         if "obs" not in o:
-            run.violation("corr:C12/harness error", {"correspondence": "harness (cachereal)", "scenario": sc, "out": o}, False)
+            run.violation("corr:%s/harness error" % pid, {"correspondence": "harness (cachereal)", "scenario": sc, "out": o}, False)
             continue
-        if any(st["err"] not in ERRS for st in o["obs"]["steps"]):
-            run.violation("corr:C12/unexpected error class", {"correspondence": "error classes (cachereal)", "scenario": sc,
-                                                               "impl": o["obs"]}, False)
+        if any(st["err"] not in ERRS for st in o["obs"]["steps"]) or not real_reads_wellformed(o["obs"]):
+            run.violation("corr:%s/unexpected error class" % pid, {"correspondence": "error classes (cachereal)", "scenario": sc,
+                                                                    "impl": o["obs"]}, False)
             continue
         terms.append(real_term(sc, o["obs"]))
         idx.append(i)
-    res, logs = vlib.judge_cases("C12", IMPORTS, "judge_real", terms, 5, shard=40, tag="real")
+    res, logs = vlib.judge_cases(pid, IMPORTS, "judge_real", terms, 6, shard=20, tag="real")
     for l in logs:
-        run.violation("corr:C12/coq-eval", {"correspondence": "coq evaluation failed", "log": l}, False)
+        run.violation("corr:%s/coq-eval" % pid, {"correspondence": "coq evaluation failed", "log": l}, False)
     n = 0
     for i, v in zip(idx, res):
         if v is None:
             continue
         n += 1
         sc, ob = scs[i], outs[i]["obs"]
-        a_cur, a_fix, streams_ok, deliv_ok, peaks_ok = v
-        rep = {"scenario": sc, "impl": ob, "judge_real(agree_current,agree_fixed,streams,delivered,peaks)": list(v)}
-        if not (streams_ok and peaks_ok):
-            if a_cur and streams_ok and peaks_ok:
-                pass
-            run.violation("C12 real InformerMap: running informers (open WATCH streams) do not match the kinds' owners"
-                          + ("" if peaks_ok else " - two informers of one kind at once"), rep, True)
+        a_cur, a_fix, streams_ok, deliv_ok, peaks_ok, reads_ok = v
+        rep = {"scenario": sc, "impl": ob, "judge_real(agree_current,agree_fixed,streams,delivered,peaks,reads)": list(v)}
+        if only_reads_as is not None:
+            if not reads_ok:
+                run.violation(only_reads_as, rep, True)
+        elif not peaks_ok:
+            run.violation("C12 real InformerMap: two informers of one kind run at the same time", rep, True)
+        elif not streams_ok:
+            missing = any(st["snap"][g] and st["streams"][g] == 0 for st in ob["steps"] for g in range(sc["kinds"]))
+            run.violation("C12 real InformerMap: no informer runs for a GVK a live owner still watches" if missing else
+                          "C12 real InformerMap: an informer keeps running for a kind nobody watches", rep, True)
         elif not deliv_ok:
             if a_cur and any(op.get("list") in ("hang", "fail") for op in sc["ops"]):
                 run.violation(IDENT_FC12, rep, True)
             else:
                 run.violation("C12 real InformerMap: a running informer does not deliver events to all registered handlers", rep, True)
+        elif not reads_ok:
+            run.violation(IDENT_READ, rep, True)
         elif not (a_fix if fixed_mode else a_cur):
             rep["correspondence"] = "C12Corr.agree_real"
             run.violation("corr:C12/real InformerMap: model and implementation differ", rep, False)
-        run.classes.add(("real",) + tuple((op["op"], op.get("list", ""), st["err"], tuple(st["streams"]))
+        run.classes.add(("real",) + tuple((op["op"], op.get("g", -1), op.get("list", ""), op.get("sns", -1), st["err"], tuple(st["streams"]))
                                           for op, st in zip(sc["ops"], ob["steps"])))
     run.cov["evaluations"] += n
     return {"scenarios": n, "operations": sum(len(s["ops"]) for s in scs),
-            "with_hanging_or_failing_LIST": sum(1 for s in scs if any(op.get("list") in ("hang", "fail") for op in s["ops"]))}
+            "with_hanging_or_failing_LIST": sum(1 for s in scs if any(op.get("list") in ("hang", "fail") for op in s["ops"])),
+            "reads_through_the_cache": sum(len(st["gets"]) + len(st["lists"]) for o in outs if "obs" in o for st in o["obs"]["steps"])}
+
+
+def read_stage(run, pid, tier, seed, identity):
+    """For other checks (C09): the read-correctness clause on the real Cache + real InformerMap - a Get/List of a
+    watched kind returns what the informer holds, whoever watched the kind first and with whatever sample object.
+    Failures are reported under `identity`; needs nothing but a built Coq development."""
+    ok, blog = vlib.build_harness()
+    if not ok:
+        run.violation("corr:harness-build", {"correspondence": "harness no longer builds against the tree", "log": blog[-4000:]}, False)
+        return None
+    r = vlib.rng(seed, "C12-read-stage")
+    st = check_real(run, scope_scenarios(r, tier) + version_scenarios(r, tier)[:2], True, pid=pid, only_reads_as=identity)
+    run.cov["dynamic_cache_read_stage"] = st
+    return st
 
 
 # ---------------------------------------------------------------- concurrent callers
